@@ -11,7 +11,7 @@ ALIGNS = ['none', 'xMinYMin', 'xMidYMin', 'xMaxYMin', 'xMinYMid', 'xMidYMid', 'x
 COQ_ALIGN = {'none': 'ANone', 'xMinYMin': 'XMinYMin', 'xMidYMin': 'XMidYMin', 'xMaxYMin': 'XMaxYMin',
              'xMinYMid': 'XMinYMid', 'xMidYMid': 'XMidYMid', 'xMaxYMid': 'XMaxYMid',
              'xMinYMax': 'XMinYMax', 'xMidYMax': 'XMidYMax', 'xMaxYMax': 'XMaxYMax'}
-KINDS = ['root', 'nested', 'symbol', 'image', 'pattern', 'pattern-obb', 'marker', 'use-svg', 'image-dpi']
+KINDS = ['root', 'nested', 'symbol', 'image', 'pattern', 'pattern-obb', 'pattern-href', 'marker', 'use-svg', 'image-dpi']
 NS = 'xmlns="http://www.w3.org/2000/svg" xmlns:xlink="http://www.w3.org/1999/xlink"'
 PROBE = '<rect fill="#010203" x="1" y="2" width="3" height="4"/>'
 
@@ -39,6 +39,7 @@ def gen_case(rng, kind, align, slice_):
     Y = dy(rng, -50, 50)
     return dict(kind=kind, align=align, slice=slice_, vb=[vx, vy, vw, vh], W=W, H=H, X=X, Y=Y,
                 pcu=rng.choice(['', ' patternContentUnits="userSpaceOnUse"', ' patternContentUnits="objectBoundingBox"']),
+                href_split=rng.choice(['tot', 'oto', 'tto', 'ott', 'oot', 'too']),
                 over=rng.choice(['w', 'h', 'wh', '']), A=dy(rng, 1, 300), B=dy(rng, 1, 300),
                 dpi=rng.choice([72, 96, 192, 300]), unit=rng.choice(['in', 'pt', 'pc']))
 
@@ -67,6 +68,17 @@ def make_doc(c):
         return ('<svg %s width="600" height="600"><pattern id="p" patternUnits="userSpaceOnUse" x="%s" y="%s" width="%s" height="%s" '
                 'viewBox="%s" preserveAspectRatio="%s"%s>%s</pattern><rect width="500" height="500" fill="url(#p)"/></svg>'
                 % (NS, fs(c['X']), fs(c['Y']), fs(c['W']), fs(c['H']), vb, par(c), c['pcu'], PROBE))
+    if k == 'pattern-href':
+        # viewBox, preserveAspectRatio and the tile rectangle spread over an xlink:href template chain
+        # (each attribute is inherited from the nearest template that has it)
+        which = c['href_split']
+        tvb = ' viewBox="%s"' % vb
+        tpar = ' preserveAspectRatio="%s"' % par(c)
+        trect = ' patternUnits="userSpaceOnUse" x="%s" y="%s" width="%s" height="%s"' % (fs(c['X']), fs(c['Y']), fs(c['W']), fs(c['H']))
+        own = (tvb if which[0] == 'o' else '') + (tpar if which[1] == 'o' else '') + (trect if which[2] == 'o' else '')
+        tmpl = (tvb if which[0] == 't' else '') + (tpar if which[1] == 't' else '') + (trect if which[2] == 't' else '')
+        return ('<svg %s width="600" height="600"><pattern id="t"%s>%s</pattern><pattern id="p" xlink:href="#t"%s/>'
+                '<rect width="500" height="500" fill="url(#p)"/></svg>' % (NS, tmpl, PROBE, own))
     if k == 'pattern-obb':
         # patternUnits=objectBoundingBox on a 512x512 box at the origin: fractions are dyadic, so the resolved
         # tile rectangle is exactly (X, Y, W, H)
@@ -133,7 +145,7 @@ def find_probe(tree, kind):
             found.append(n['abs_ts'])
         if n.get('t') == 'image':
             found.append(('image', n))
-    if kind in ('pattern', 'pattern-obb'):
+    if kind in ('pattern', 'pattern-obb', 'pattern-href'):
         if not tree['patterns']:
             return None
         pr = tree['patterns'][0]['root']
@@ -174,7 +186,7 @@ def coq_vb(c):
 def coq_expected(c):
     size = "{| sw := %s; sh := %s |}" % (qstr(c['W']), qstr(c['H']))
     k = c['kind']
-    if k in ('root', 'pattern', 'pattern-obb'):
+    if k in ('root', 'pattern', 'pattern-obb', 'pattern-href'):
         return "(to_transform %s %s)" % (coq_vb(c), size)
     if k == 'marker':
         # markers are anchored at (refX, refY): only the scale of the viewBox mapping is used
@@ -208,7 +220,7 @@ def spec_check(c, t, tol=2e-4):
     k = c['kind']
     vx, vy, vw, vh = [float(v) for v in c['vb']]
     W, H = float(c['W']), float(c['H'])
-    ox, oy = (0.0, 0.0) if k in ('root', 'pattern', 'pattern-obb') else (float(c['X']), float(c['Y']))
+    ox, oy = (0.0, 0.0) if k in ('root', 'pattern', 'pattern-obb', 'pattern-href') else (float(c['X']), float(c['Y']))
     if k == 'marker':
         # anchored at the reference point: check the scale rule only (uniform; min for meet, max for slice)
         bad = []
@@ -440,6 +452,14 @@ def run(ctx):
     # ------------------------------------------------------------------ S2: size rules
     nsz = 150 if quick else 1500
     scases = [gen_size_case(rng) for _ in range(nsz)]
+    # directed grid: every combination of {missing, percent, absolute} x {missing, percent, absolute} x
+    # {viewBox, none} x {content, empty} x default sizes with width != height != 100
+    for wv in (None, (50, '%'), (100, '%'), (30, 'px')):
+        for hv in (None, (50, '%'), (25, '%'), (2, 'in')):
+            for vbv in (None, [0, 0, 64, 80]):
+                for content in (True, False):
+                    for (dwv, dhv) in ((300, 150), (100, 100), (33, 480)):
+                        scases.append(dict(w=wv, h=hv, vb=vbv, dpi=rng.choice([72, 96, 300]), dw=dwv, dh=dhv, content=content))
     sdocs = [size_doc(c) for c in scases]
     souts = ctx.rvh_batch(binp, 'dump', ["dpi=%s;dw=%s;dh=%s\t%s" % (c['dpi'], c['dw'], c['dh'], d) for c, d in zip(scases, sdocs)])
     kinds = {}
@@ -547,7 +567,9 @@ def run(ctx):
         # tiny-skia anti-aliases with 4 sub-scanlines: an edge that moves by one f32 ulp can change a row of
         # edge pixels by 64 levels.  Allowed: edge noise (<= 72 levels) on at most 10% of the painted pixels.
         # Measured noise floor over 4000 random pairs: <= 1 pixel above 72 levels, <= 12% of painted pixels above 8.
-        if r['nbig'] > 4 or r['ndiff'] > max(16, r['nonblank'] * 15 // 100):
+        # Thin content (a few device pixels wide) has mostly edge pixels: a one-ulp move changes up to ~30 % of its
+        # painted pixels by <= 45 levels (measured); a real misplacement of >= 1 px shows as many pixels above 72.
+        if r['nbig'] > 4 or r['ndiff'] > max(24, r['nonblank'] * 40 // 100):
             ctx.violation("rendering with root scale %s differs from the document with width/height x %s (%d pixels, max delta %d)"
                           % (s, s, r['ndiff'], r['max']), dict(docA=da, docB=db, scale=s, result=r))
     ctx.cov['scale_law_renders'] = len(items)
@@ -583,7 +605,7 @@ def run(ctx):
                 continue
             ctx.violation("node export under a root scale failed: %s" % str(r)[:200], dict(docA=da, docB=db, scale=s, id='n'))
             continue
-        if r['some'] != [True, True] or r['nbig'] > 6 or r['ndiff'] > max(16, r['nonblank'] * 15 // 100):
+        if r['some'] != [True, True] or r['nbig'] > 6 or r['ndiff'] > max(24, r['nonblank'] * 40 // 100):
             ctx.violation("render_node with root scale %s differs from the resized document (%d pixels, max delta %d)"
                           % (s, r['ndiff'], r['max']), dict(docA=da, docB=db, scale=s, id='n', result=r))
     ctx.cov['export_scale_renders'] = len(eitems)
